@@ -72,6 +72,10 @@ func init() {
 	for _, k := range []lm{{0x54, 0, 15}, {0x55, 1, 7}, {0x56, 2, 3}, {0x57, 3, 1}} {
 		add("v128.load_lane", true, cat(lg(4), vecA(), simd(k.op), []byte{k.align, 0x00, k.last}))
 	}
+	// full-width accesses
+	add("v128.load", true, cat(lg(4), simd(0x00), []byte{0x04, 0x00}))
+	add("v128.store", true, cat(lg(4), vecA(), simd(0x0b), []byte{0x04, 0x00}, vecA()))
+	add("v128.load-off", true, cat(lg(4), simd(0x00), []byte{0x00, 0x09}))
 	for lane := byte(0); lane < 4; lane++ {
 		add("i32x4.replace_lane", false, cat(vecA(), lg(4), simd(0x1c), []byte{lane}))
 		add("f32x4.replace_lane", false, cat(vecA(), lg(4), []byte{0xbe}, simd(0x20), []byte{lane}))
